@@ -473,6 +473,13 @@ def list_extend(eng, st, l, it):
     def go(s, seq):
         rec = s.objs[l.oid]
         n, e = rec["len"], rec["elem"]
+        if seq.known_len and z3.is_int_value(z3.simplify(n)) and z3.simplify(n).as_long() == 0:
+            # an empty list literal takes its element kind from the first element (as list_append does)
+            vk = value_kind(seq.get(s, z3.IntVal(0)))
+            if vk is not None and sort_of(vk) != e.sort().range():
+                s = s.updobj(l.oid, ekind=vk, elem=z3.K(I, _default(vk)))
+                rec = s.objs[l.oid]
+                n, e = rec["len"], rec["elem"]
         if seq.known_len is not None and seq.known_len <= 4:
             e2 = e
             for k in range(seq.known_len):
@@ -1001,6 +1008,11 @@ def _minmax(is_min):
     def f(eng, st, pos, kw):
         items = pos
         if len(pos) == 1:
+            from . import comprehension as C
+            if isinstance(pos[0], (C.VGen, C.VGenFlat)):
+                if kw:
+                    raise Unsupported("min/max of a generator with keywords")
+                return C.minmax_gen(eng, st, pos[0], is_min)
             seq = to_seq(eng, st, pos[0])
             if seq is None or seq.known_len is None:
                 raise Unsupported("min/max of symbolic collection")
